@@ -18,7 +18,8 @@ func (p *AggregatorPlanner) process(ctx *shared.PlannerContext,
 	in chan []shared.LogEntry, ops aggregatorPlannerOps) (chan []shared.LogEntry, error) {
 
 	streamLen := ctx.To.Sub(ctx.From).Nanoseconds() / p.Duration.Nanoseconds()
-	if streamLen > 4000000000 {
+	// two float64 per bucket and series: 10M buckets are 160 MB per series
+	if streamLen < 0 || streamLen > 10000000 {
 		return nil, &shared.NotSupportedError{Msg: "stream length is too large. Please try increasing duration."}
 	}
 
